@@ -104,32 +104,32 @@ type fakeIDP struct {
 	clientID string
 	codes    map[string]*codeGrant
 	// refresh token → user; single-use when rotate is on
-	refresh  map[string]idpUser
-	rtSeq    int
-	codeSeq  int
-	calls    []idpCall
+	refresh                                            map[string]idpUser
+	rtSeq                                              int
+	codeSeq                                            int
+	calls                                              []idpCall
 	tokenCalls, refreshCalls, userinfoCalls, jwksCalls int
 	// behaviour knobs
-	rotateRT       bool
+	rotateRT              bool
 	refreshReturnsIDToken bool
-	tokenTTL       time.Duration
-	nonceMode      string // "echo" (default), "other:<v>", "empty", "absent", "raw"
-	audOverride    interface{}
-	issOverride    string
-	signAlg        string // RS256 default; "other" = RS256 with other key; "none"; "HS256"
-	expOverride    *time.Time
-	claimOverride  map[string]interface{}
-	profile        map[string]interface{} // userinfo endpoint JSON
+	tokenTTL              time.Duration
+	nonceMode             string // "echo" (default), "other:<v>", "empty", "absent", "raw"
+	audOverride           interface{}
+	issOverride           string
+	signAlg               string // RS256 default; "other" = RS256 with other key; "none"; "HS256"
+	expOverride           *time.Time
+	claimOverride         map[string]interface{}
+	profile               map[string]interface{} // userinfo endpoint JSON
 	// fault hook: return true when the hook answered the request itself
-	fault func(endpoint string, n int, w http.ResponseWriter, r *http.Request) bool
-	epCount        map[string]int
-	pkceFailures   []string
-	rawNonceFor    func(hashed string) string
-	issuedIDTokens []string
-	staleRTUse     int
+	fault           func(endpoint string, n int, w http.ResponseWriter, r *http.Request) bool
+	epCount         map[string]int
+	pkceFailures    []string
+	rawNonceFor     func(hashed string) string
+	issuedIDTokens  []string
+	staleRTUse      int
 	initialTokenPad string // appended to access tokens issued for a code (big initial sessions)
-	accessTokenPad string // appended to access tokens issued on refresh (growing sessions)
-	refreshNonce   string // nonce claim to put into refreshed ID tokens of sessions the harness crafted itself
+	accessTokenPad  string // appended to access tokens issued on refresh (growing sessions)
+	refreshNonce    string // nonce claim to put into refreshed ID tokens of sessions the harness crafted itself
 }
 
 func newFakeIDP(clientID string) *fakeIDP {
